@@ -1,0 +1,22 @@
+// Package cborutil wraps CBOR decoding of untrusted data.
+package cborutil
+
+import (
+	"fmt"
+
+	"github.com/fxamacker/cbor/v2"
+)
+
+// Unmarshal is cbor.Unmarshal, except that a panic inside the decoder is returned as an error.
+//
+// The CBOR library panics for some malformed inputs, for example when it finds a CBOR null where
+// the destination holds a pre-initialized interface value (as our messages and configs do for
+// points and scalars). For untrusted data this must be a decoding error, not a crash.
+func Unmarshal(data []byte, v interface{}) (err error) {
+	defer func() {
+		if r := recover(); r != nil {
+			err = fmt.Errorf("cbor: malformed data: %v", r)
+		}
+	}()
+	return cbor.Unmarshal(data, v)
+}
